@@ -122,6 +122,25 @@ Theorem no_put_overwrites : forall v s p o, puts_fresh s (fst (plan v s p o)).
 Proof. exact plan_puts_fresh. Qed.
 Print Assumptions no_put_overwrites.
 
+(* MALFORMED IMPORTS: an EC private key that is not on the curve of the key type (a key of another curve, a point off
+   the curve) is refused before any store call and changes nothing (repaired code; which code /repo has is read off the
+   executed table: repo_is_fixed) *)
+Theorem import_of_key_off_the_curve_refused : forall st kt u k c,
+  st_store (fst (step Fixed st (KImportBad kt u k, c))) = st_store st /\
+  snd (step Fixed st (KImportBad kt u k, c)) = OErr /\
+  fst (snd (step_calls Fixed st (KImportBad kt u k, c))) = [].
+Proof. exact bad_import_refused. Qed.
+Print Assumptions import_of_key_off_the_curve_refused.
+
+(* as found: such a key was accepted and stored — an asymmetric key of a thumbprint-identified type under a random id
+   (its public key cannot be exported), returned to the caller as usable *)
+Theorem import_of_key_off_the_curve_asis_refuted :
+  snd (step AsIs init (KImportBad K_NISTP256ECDHKW None 1000, None)) = OId (KRand 0) 1000 /\
+  import_thumb_type K_NISTP256ECDHKW = true /\
+  snd (step Fixed init (KImportBad K_NISTP256ECDHKW None 1000, None)) = OErr.
+Proof. repeat split; vm_compute; reflexivity. Qed.
+Print Assumptions import_of_key_off_the_curve_asis_refuted.
+
 (* KEY IDS.  For the key types the generated table marks as thumbprint-identified (every asymmetric type), the id
    returned by create, create-and-export and rotate is the thumbprint id of the returned (primary) key ... *)
 Theorem created_key_id_is_thumbprint : forall v st kt c id k,
